@@ -432,11 +432,11 @@ func (m *MatchRDP) Provision(_ caddy.Context) (err error) {
 		}
 		m.cookieIPs = append(m.cookieIPs, prefix)
 	}
-	m.cookieHashRegexp, err = regexp.Compile(repl.ReplaceAll(m.CookieHashRegexp, ""))
+	m.cookieHashRegexp, err = regexp.Compile(repl.ReplaceKnown(m.CookieHashRegexp, ""))
 	if err != nil {
 		return err
 	}
-	m.customInfoRegexp, err = regexp.Compile(repl.ReplaceAll(m.CustomInfoRegexp, ""))
+	m.customInfoRegexp, err = regexp.Compile(repl.ReplaceKnown(m.CustomInfoRegexp, ""))
 	if err != nil {
 		return err
 	}
